@@ -88,7 +88,10 @@ def gen_fn(rnd, depth):
         elif kd == "r":
             args.append(("term", "regex", rnd.choice(REGEX)))
         elif kd == "e":
-            args.append(gen_eq(rnd, depth) if rnd.random() < 0.6 else gen_fn(rnd, 0))
+            if depth <= 0:
+                args.append(("fn", rnd.choice(["yes", "no", "firstline"]), [], []))
+            else:
+                args.append(gen_eq(rnd, depth - 1) if rnd.random() < 0.6 else gen_fn(rnd, depth - 1))
         else:
             args.append(gen_value(rnd, depth))
     return ("fn", name, rnd.sample(FQUALS, rnd.choice([0, 0, 0, 1, 2])), args)
@@ -292,7 +295,8 @@ def main():
                 p = CsvPath()
                 p.parse(f"{outer}${fn}[*][{text}]")
                 lines = p.collect()
-            return [list(x) for x in lines], {k: v for k, v in p.variables.items()}, p.is_valid
+            # variables may be self-referential (a stack pushed onto itself): compare their repr, which marks cycles
+            return [list(x) for x in lines], repr({k: v for k, v in p.variables.items()}), p.is_valid
         try:
             base = run(canon)
         except Exception as e:
